@@ -14,12 +14,14 @@ EXTENDS Integers, TLC
 CONSTANTS Max,      \* Options.ClientMaxConns (0 = unlimited)
           Auto      \* BOOLEAN: ClientMode_AutoConnect
 
-VARIABLES closed, connected, disconnected, connecting, listed, live, attempt
-cvars == <<closed, connected, disconnected, connecting, listed, live, attempt>>
+VARIABLES closed, connected, disconnected, connecting, listed, live, attempt,
+          orphans   \* connections which are not listed and whose closed callback may still come: un-listed by Close,
+                    \* discarded by a late Add, or created by a dial attempt that has not added its connection (yet)
+cvars == <<closed, connected, disconnected, connecting, listed, live, attempt, orphans>>
 
 CInit == /\ closed = FALSE /\ connected = FALSE /\ disconnected = TRUE
          /\ connecting = Auto          \* an auto-connect client starts connecting in its constructor
-         /\ listed = 0 /\ live = 0 /\ attempt = 0
+         /\ listed = 0 /\ live = 0 /\ attempt = 0 /\ orphans = 0
 
 \* connect(): start a connect routine unless one is registered
 StartConnect(c) == TRUE
@@ -27,11 +29,15 @@ StartConnect(c) == TRUE
 Close ==
     /\ IF closed THEN UNCHANGED cvars
        ELSE /\ closed' = TRUE /\ connecting' = FALSE /\ listed' = 0 /\ live' = 0
+            /\ orphans' = orphans + listed
             /\ connected' = FALSE /\ disconnected' = TRUE /\ UNCHANGED attempt
 
-\* onConnClosed(conn): the connection is removed from the list (it may already be gone after Close)
+\* onConnClosed(conn): a listed connection is removed from the list; the callback of a connection that is not listed
+\* (un-listed by Close, discarded by a late Add, closed by a failed handshake) changes nothing
 ConnClosed(wasListed) ==
     /\ wasListed => listed > 0
+    /\ ~wasListed => orphans > 0
+    /\ orphans' = IF wasListed THEN orphans ELSE orphans - 1
     /\ LET n == IF wasListed THEN listed - 1 ELSE listed IN
        /\ listed' = n
        /\ live' = IF live > n THEN n ELSE live
@@ -44,7 +50,7 @@ ConnClosed(wasListed) ==
 \* onConnChannelsReached: open one more connection while below the maximum
 Reached ==
     /\ connecting' = (IF Max > 0 /\ listed < Max THEN TRUE ELSE connecting)
-    /\ UNCHANGED <<closed, connected, disconnected, listed, live, attempt>>
+    /\ UNCHANGED <<closed, connected, disconnected, listed, live, attempt, orphans>>
 
 \* conn() slow path: no usable connection was found without the lock
 Slow ==
@@ -52,11 +58,12 @@ Slow ==
        ELSE /\ connected' = FALSE
             /\ disconnected' = (IF connected THEN TRUE ELSE disconnected)
             /\ connecting' = TRUE
-            /\ UNCHANGED <<closed, listed, live, attempt>>
+            /\ UNCHANGED <<closed, listed, live, attempt, orphans>>
 
 \* connectRecover, first region: count the attempt (the back-off sleep follows outside the lock)
 Attempt ==
     /\ attempt' = attempt + 1
+    /\ orphans' = orphans + 1            \* the dial may create a connection (a failed handshake closes it un-listed)
     /\ UNCHANGED <<closed, connected, disconnected, connecting, listed, live>>
 
 \* connectRecover, last region: the dial succeeded
@@ -64,18 +71,19 @@ Add ==
     /\ IF closed THEN UNCHANGED cvars                       \* the new connection is closed again, nothing is listed
        ELSE /\ listed' = listed + 1 /\ live' = live + 1 /\ attempt' = 0
             /\ connected' = TRUE /\ disconnected' = FALSE
+            /\ orphans' = IF orphans > 0 THEN orphans - 1 ELSE 0     \* the attempt's connection is listed now
             /\ UNCHANGED <<closed, connecting>>
 
 \* connect1 tail: the routine unregisters itself; after a failure an auto-connect client that is not closed tries again
 Tail(again) ==
     /\ again => (Auto /\ ~closed)
     /\ connecting' = again
-    /\ UNCHANGED <<closed, connected, disconnected, listed, live, attempt>>
+    /\ UNCHANGED <<closed, connected, disconnected, listed, live, attempt, orphans>>
 
 \* environment: a listed connection dies (its closed flag is set before onConnClosed runs)
 Die ==
     /\ live > 0 /\ live' = live - 1
-    /\ UNCHANGED <<closed, connected, disconnected, connecting, listed, attempt>>
+    /\ UNCHANGED <<closed, connected, disconnected, connecting, listed, attempt, orphans>>
 
 \* ------------------------------------------------------------- properties
 FlagsExclusive == connected # disconnected
